@@ -155,7 +155,7 @@ class C05(PropertyCheck):
         "QipVerif.C05.tree_set_interpreted",
         "QipVerif.C05.self_commuting_names_realised",
         "QipVerif.C05.declared_never_opaque",
-        "QipVerif.C05.tree_long_targets_never_declared",
+        "QipVerif.C05.tree_unflagged_never_declared",
         "QipVerif.C05.C05_counterexample_targets_only",
         "QipVerif.C05.schedule_den_C_full",
         "QipVerif.C05.schedule_den_C_full_fwd",
@@ -873,6 +873,12 @@ class C05(PropertyCheck):
                     "as_circuit": False}
         if rng is None:
             for seq in self.CTOR_CIRCUITS:
+                # attribute edits on ONE object: constructed without permutation / with the other method, then switched
+                for m in ("ASAP", "ALAP"):
+                    for what in ("perm:1", "method:" + ("ALAP" if m == "ASAP" else "ASAP"), ["assign", ["q"]], ["assign", None]):
+                        yield {"steps": [{"op": "new", "id": 0, "method": m, "perm": what != "perm:1", "cons": None},
+                                         {"op": "mutate", "id": 0, "what": what},
+                                         {"op": "call", "id": 0, "call": call(seq)}], "scope": "covered"}
                 for what in ("clear", "pop", "append_a", "method:ALAP", "perm:0"):
                     for m in ("ASAP", "ALAP"):
                         yield {"steps": [{"op": "new", "id": 0, "method": m, "perm": True, "cons": None},
@@ -977,6 +983,8 @@ class C05(PropertyCheck):
                  [("TOFFOLI", [0, 1, 2], []), ("TOFFOLI", [0, 2, 1], [])], [("TOFFOLI", [0, 1, 2], []), ("TOFFOLI", [1, 0, 2], [])],
                  [("TOFFOLI", [2, 0, 1], []), ("TOFFOLI", [1], [0, 2])], [("FREDKIN", [0, 1, 2], []), ("FREDKIN", [1, 0, 2], [])],
                  [("X", [2], []), ("TOFFOLI", [0, 1, 2], []), ("TOFFOLI", [2, 1, 0], []), ("X", [0], [])],
+                 [("TOFFOLI", [1, 2], [0]), ("TOFFOLI", [2, 1], [0])], [("TOFFOLI", [1, 2], [0]), ("TOFFOLI", [2], [0, 1])],
+                 [("TOFFOLI", [0, 2], [1]), ("TOFFOLI", [1, 2], [0]), ("TOFFOLI", [2, 0], [1])],
                  [("X", [1], []), ("MS", [0, 1], []), ("MS", [1, 0], []), ("X", [0], [])]]
         for seq in pairs:
             N = 1 + max(q for g in seq for q in g[1] + g[2])
